@@ -165,9 +165,15 @@ def oracle(results, arg, target, family, label):
     gone_ok = all(scen.is_under(p, target) for p in removed) and scen.sub(after, target) is None
     infos = [p for p, v in added.items() if v[0] != 'd' and '/info/' in p and p.endswith('.trashinfo')]
     where = []
+    relinked = []
     for p in added:
         if '/files/' in p and scen.sub(after, p) == payload:
             where.append(p)
+        elif '/files/' in p and payload[0] == 'l' and scen.sub(after, p)[0] == 'l' and scen.sub(after, p)[1] == payload[1]:
+            relinked.append(p)
+    if not where and len(relinked) == 1 and gone_ok:
+        return rt.fail('C01:symlink-mtime-not-preserved:cross-device-move',
+                       'arg %r: the symlink was re-created in %r by a cross-device shutil.move: target kept, modification time lost' % (arg, relinked[0]))
     stray = [p for p, v in added.items() if v[0] != 'd' and not any(scen.is_under(p, w) for w in where) and p not in infos]
     if gone_ok and len(where) == 1 and len(infos) == 1 and not stray:
         w = where[0]
